@@ -234,9 +234,11 @@ def fs3(ctx):
             n += 1
             # regular file
             g1 = False
-            for (bi, c, te, fe, cs) in b.switches_on_call(lambda c: c.name == 'std::fs::FileType::is_file'):
+            # regular-file test on the entry itself (lstat semantics): DirEntry::file_type().is_file() or
+            # DirEntry::metadata().is_file(); Path::is_file / fs::metadata(path) follow symlinks and do not count
+            for (bi, c, te, fe, cs) in b.switches_on_call(lambda c: c.name in ('std::fs::FileType::is_file', 'std::fs::Metadata::is_file')):
                 back = fl.backward(set(fl.op_nodes(cs.args[0])))
-                from_ft = any(c2.name == 'std::fs::DirEntry::file_type' and any(x in back for x in fl.call_result_nodes(c2)) for c2 in b.calls)
+                from_ft = any(c2.name in ('std::fs::DirEntry::file_type', 'std::fs::DirEntry::metadata') and any(x in back for x in fl.call_result_nodes(c2)) for c2 in b.calls)
                 if from_ft and b.edge_dominates(te, ps.point):
                     g1 = True
             g2 = False
@@ -318,3 +320,43 @@ def fs5(ctx):
                   'a directory entry name is sliced at a fixed byte offset before the ASCII prefix was verified: a name with a multi-byte character across that offset makes open panic')
     if n == 0:
         ctx.ok('no-slicing', b.span, 'the parser uses no panicking str slicing', nontrivial=False)
+
+
+@rule('FS6', ['C02', 'C17', 'C01'], floor=1, template='no-extra-filter')
+def fs6(ctx):
+    """The scan tracks EVERY regular file whose name parses: the only ways to skip an entry are "not a
+    regular file", "name not UTF-8" and "name rejected by the parser" (an untracked wal-N would collide
+    with the exclusive create at the next roll-over, or hide data)."""
+    rds = {b.id for b in name_readers(ctx)}
+    n = 0
+    for b in scan_bodies(ctx):
+        pushes = [cs for cs in b.calls if re.search(r'Vec::<u64>::push$', cs.name)]
+        loops = [L for L in b.loops() if any(ps.block in L['blocks'] for ps in pushes)]
+        if not pushes or not loops:
+            continue
+        L = loops[0]
+        hdr = b.pstart[L['header']]
+        inside = set()
+        for x in L['blocks']:
+            for p in range(b.pstart[x], b.pterm[x] + 1):
+                inside.add(p)
+        outside = [p for p in range(len(b.points)) if p not in inside]
+        allowed = []
+        for (bi, c, te, fe, cs) in b.switches_on_call(lambda c: c.name in ('std::fs::FileType::is_file', 'std::fs::Metadata::is_file')):
+            allowed.append(fe)
+        for c2 in b.calls:
+            if c2.dest_local() is None:
+                continue
+            is_parser = c2.node in rds
+            is_to_str = c2.name.endswith('OsStr::to_str') or c2.name.endswith('OsString::to_str') or 'to_str' in c2.name
+            if is_parser or is_to_str:
+                known = alias_paths(b, c2.dest_local())
+                for (bj, pl, adt, edges) in b.discr_switches():
+                    if place_path(known, pl) == [()] and 'None' in edges:
+                        allowed.append(edges['None'])
+        n += 1
+        r = b.reach_after(hdr, avoid=set(ps.point for ps in pushes) | set(outside), avoid_edges=allowed)
+        ctx.check(hdr not in r, '%s:only-three-skips' % b.path, where(b, pushes[0].point), 'an entry is skipped only if it is not a regular file, not UTF-8, or rejected by the name parser',
+                  'the directory scan has an additional way to skip an entry (some regular files with a valid WAL name are left untracked): a leftover wal-N would later collide with the exclusive create of that file, or its data would be ignored')
+    if n == 0:
+        ctx.missing('scan', 'no scan loop pushing file numbers found')
